@@ -185,6 +185,11 @@ class mm_reader {
 
                 precondition(is >> i >> j, format_error());
 
+                precondition(
+                        i >= 1 && static_cast<ptrdiff_t>(i) <= n &&
+                        j >= 1 && static_cast<ptrdiff_t>(j) <= m,
+                        format_error("index out of range"));
+
                 i -= 1;
                 j -= 1;
 
